@@ -101,6 +101,10 @@ class G:
             writes = [["setl", d(st.integers(0, 2)), self.expr()] if d(st.booleans()) else ["setm", 0, d(st.integers(0, 1)), self.expr()]
                       for _ in range(d(st.integers(1, 2)))]
             return ["alias_if", self.cond(), writes]
+        if k <= 3 and self.lists and d(st.integers(0, 7)) == 0:
+            # "keep the best row": a whole list variable assigned to another one inside a block; both names hold ONE object when the
+            # block is merged (the native twin copies: that is what the merge implements)
+            return ["copyl_if", self.cond()]
         if k <= 3:
             if self.lists and d(st.integers(0, 2)) == 0:
                 if d(st.booleans()):
@@ -204,6 +208,7 @@ def draw_case(draw):
     if g.lists:
         lists = {"l": [draw(st.integers(-3, 5)) for _ in range(3)], "lsec": [draw(st.booleans()) for _ in range(3)],
                  "m": [[draw(st.integers(-3, 5)) for _ in range(2)] for _ in range(2)],
+                 "l2": [draw(st.integers(-3, 5)) for _ in range(3)], "l2sec": [draw(st.booleans()) for _ in range(3)],
                  "msec": [[draw(st.booleans()) for _ in range(2)] for _ in range(2)],
                  # the flat list as a pysnark Array (element writes in place, like a list; native twin keeps a list)
                  "l_is_array": draw(st.booleans())}
@@ -313,6 +318,11 @@ def _render(case, obl):
             emit(ind, ("if _if(%s%s):" % (r_cond(s[1], obl), CX2)) if obl else "if %s:" % r_cond(s[1], obl))
             for w in s[2]:
                 emit(ind + 1, ("tl[%d] = %s" % (w[1], r_expr(w[2], obl))) if w[0] == "setl" else "tm0[%d] = %s" % (w[2], r_expr(w[3], obl)))
+            if obl:
+                emit(ind, "_endif(%s)" % CX1)
+        elif t == "copyl_if":
+            emit(ind, ("if _if(%s%s):" % (r_cond(s[1], obl), CX2)) if obl else "if %s:" % r_cond(s[1], obl))
+            emit(ind + 1, "_.l2 = _.l" if obl else "_.l2 = list(_.l)")
             if obl:
                 emit(ind, "_endif(%s)" % CX1)
         elif t == "setl":
@@ -428,6 +438,7 @@ def run_native(case, vec):
     if case.get("lists"):
         ns["_"].l = list(case["lists"]["l"])
         ns["_"].m = [list(r) for r in case["lists"]["m"]]
+        ns["_"].l2 = list(case["lists"].get("l2", [0, 0, 0]))
     if case.get("fvar") is not None:
         ns["_"].f = case["fvar"] / 4.0
     for i, v in enumerate(vec["ins"]):
@@ -439,7 +450,7 @@ def run_native(case, vec):
     exec(compile(render(case, False), "<c09-native>", "exec"), ns)
     out = [getattr(ns["_"], vname(case, i)) for i in range(case["nvars"])]
     if case.get("lists"):
-        out += list(ns["_"].l) + [x for r in ns["_"].m for x in r]
+        out += list(ns["_"].l) + [x for r in ns["_"].m for x in r] + list(ns["_"].l2)
     if case.get("fvar") is not None:
         out.append(int(ns["_"].f * 16))        # representation at resolution 4
     return out, outcomes
@@ -497,8 +508,10 @@ def run_oblivious(case, vec, p):
     if case.get("lists"):
         L = case["lists"]
         ctx_obj.l = [rt.PrivVal(v) if s_ else v for v, s_ in zip(L["l"], L["lsec"])]
+        ctx_obj.l2 = [rt.PrivVal(v) if s_ else v for v, s_ in zip(L.get("l2", [0, 0, 0]), L.get("l2sec", [False] * 3))]
         if L.get("l_is_array"):
             ctx_obj.l = e.ar.Array(ctx_obj.l)
+            ctx_obj.l2 = e.ar.Array(ctx_obj.l2)
         ctx_obj.m = [[rt.PrivVal(v) if s_ else v for v, s_ in zip(r, rs)] for r, rs in zip(L["m"], L["msec"])]
     if case.get("fvar") is not None:
         ctx_obj.f = e.fx.PrivValFxp(case["fvar"] / 4.0)
@@ -535,7 +548,8 @@ def run_oblivious(case, vec, p):
     objs = [getattr(ctx, vname(case, i)) for i in range(case["nvars"])]        # read as the program would: _.name
     if case.get("lists"):
         lobj = getattr(ctx, "l")
-        objs += list(lobj.arr if isinstance(lobj, e.ar.Array) else lobj) + [x for r in getattr(ctx, "m") for x in r]
+        l2obj = getattr(ctx, "l2")
+        objs += list(lobj.arr if isinstance(lobj, e.ar.Array) else lobj) + [x for r in getattr(ctx, "m") for x in r] + list(l2obj.arr if isinstance(l2obj, e.ar.Array) else l2obj)
     if case.get("fvar") is not None:
         objs.append(getattr(ctx, "f"))
     for x in objs:
